@@ -222,6 +222,9 @@ def imported_modules(prop):
 # =====================================================================================================
 # step 3: correspondence + oracles
 # =====================================================================================================
+OTHER_ENV = {'TZ': 'Pacific/Kiritimati', 'LC_ALL': 'C', 'LANG': 'C', 'PYTHONIOENCODING': 'ascii'}
+
+
 def hashseed_of(job):
     """the interpreter's string-hash seed (order of sets, collisions in dicts): fixed per job, different between jobs"""
     if job.get('hashseed') is not None:
@@ -238,7 +241,8 @@ def run_job(job):
         json.dump(job, open(jf, 'w'))
         try:
             r = sh([PY] + list(job.get('pyflags') or []) + [os.path.join(HARN, 'worker.py'), jf, of], timeout=job.get('timeout', 3000),
-                   env=dict(os.environ, VERIF_REPO=REPO, PYTHONDONTWRITEBYTECODE='1', PYTHONHASHSEED=str(hashseed_of(job))))
+                   env=dict(os.environ, VERIF_REPO=REPO, PYTHONDONTWRITEBYTECODE='1', PYTHONHASHSEED=str(hashseed_of(job)),
+                            **(job.get('env') or {})))
         except subprocess.TimeoutExpired:
             return {'cases': [], 'error': 'worker timed out'}
         if not os.path.exists(of):
@@ -288,11 +292,18 @@ def explore(prop, tier, seed, have_driver, extra_lines=None, scale=1):
     # does must not hang on an `assert` being executed.  Judged by the oracles only: where the code *uses* AssertionError
     # to refuse something, the model (of the default interpreter) and the code rightly differ.
     for j in list(jobs):
-        if j['n'] and not (j.get('profile') or '').startswith('all-'):
+        if j['n'] and not (j.get('profile') or '').startswith('all-') and j.get('profile') != 'bulk':
             jobs.append(dict(j, n=max(40, j['n'] // 6), seed=f"{j['seed']}-O", pyflags=['-O'], exhaustive=False, lines=j['lines']))
+            # … and once more in another environment: warnings are errors, the local time zone is far from UTC.  None of that
+            # is anything the library should notice: these cases are compared with the model like any other.
+            jobs.append(dict(j, n=max(40, j['n'] // 6), seed=f"{j['seed']}-W", pyflags=['-W', 'error'], env=OTHER_ENV, exhaustive=False,
+                             lines=j['lines']))
     jobs = shard(jobs, tier)
+    t_jobs = time.time()
     with concurrent.futures.ThreadPoolExecutor(max_workers=14) as ex:
         results = list(ex.map(run_job, jobs))
+    if os.environ.get('VERIF_TIMING'):
+        print(f'timing: {len(jobs)} jobs {time.time() - t_jobs:.1f}s', file=sys.stderr)
     cases, errors = [], []
     for j, r in zip(jobs, results):
         if r['error']:
@@ -302,17 +313,22 @@ def explore(prop, tier, seed, have_driver, extra_lines=None, scale=1):
             c['project'] = j.get('project')
             if j.get('pyflags'):
                 c['pyflags'] = j['pyflags']
+            if j.get('env'):
+                c['env'] = j['env']
             c['hashseed'] = hashseed_of(j)
             cases.append(c)
     # de-duplicate identical lines (corpus + shards)
     seen, uniq = set(), []
     for c in cases:
-        key = (c['line'], tuple(c.get('pyflags') or ()))
+        key = (c['line'], tuple(c.get('pyflags') or ()), bool(c.get('env')))
         if key not in seen:
             seen.add(key)
             uniq.append(c)
     cases = uniq
+    t_fin = time.time()
     n_spec = finish(cases, have_driver, errors)
+    if os.environ.get('VERIF_TIMING'):
+        print(f'timing: model and specification drivers {time.time() - t_fin:.1f}s', file=sys.stderr)
     return cases, errors, n_spec
 
 
@@ -327,7 +343,7 @@ def finish(cases, have_driver, errors, strict=True):
     else:
         model = [None] * len(cases)
     for c, m in zip(cases, model):
-        c['model'] = m if not c.get('pyflags') else None
+        c['model'] = m if '-O' not in (c.get('pyflags') or []) else None
         c['model_shadow'] = m
     # cross-check of the harness's reference implementations against the Lean specification
     spec_lines = [(c, s) for c in cases for s in c.get('spec', [])]
@@ -358,9 +374,10 @@ def finish(cases, have_driver, errors, strict=True):
     return len(spec_lines)
 
 
-def evaluate(prop, component, lines, have_driver=True, proj=None, strict=True, pyflags=None, hashseed=None):
+def evaluate(prop, component, lines, have_driver=True, proj=None, strict=True, pyflags=None, hashseed=None, env=None):
     """the given lines of one component through the real code, the model and the oracles of `prop`"""
-    r = run_job({'component': component, 'lines': list(lines), 'n': 0, 'seed': 0, 'props': [prop], 'pyflags': pyflags, 'hashseed': hashseed})
+    r = run_job({'component': component, 'lines': list(lines), 'n': 0, 'seed': 0, 'props': [prop], 'pyflags': pyflags, 'hashseed': hashseed,
+                 'env': env})
     if r['error']:
         raise RuntimeError(r['error'])
     cases = r['cases']
@@ -368,6 +385,8 @@ def evaluate(prop, component, lines, have_driver=True, proj=None, strict=True, p
         c['component'], c['project'] = component, proj
         if pyflags:
             c['pyflags'] = pyflags
+        if env:
+            c['env'] = env
     errors = []
     finish(cases, have_driver, errors, strict=strict)
     if errors:
@@ -457,18 +476,20 @@ def shrink_case(prop, c, r, budget_s=8.0):
         return True
 
     def still(lines):
-        cs = evaluate(prop, comp, lines, have_driver=True, proj=c.get('project'), strict=False, pyflags=c.get('pyflags'), hashseed=c.get('hashseed'))
+        cs = evaluate(prop, comp, lines, have_driver=True, proj=c.get('project'), strict=False, pyflags=c.get('pyflags'), hashseed=c.get('hashseed'), env=c.get('env'))
         by = {x['line']: x for x in cs}
         return [l in by and failing(by[l]) is not None and wellformed(by[l]) for l in lines]
     try:
         line, rounds, tried = shrink.shrink(comp, c['line'], still, budget_s=budget_s)
         if line == c['line']:
             return c, r
-        c2 = evaluate(prop, comp, [line], have_driver=True, proj=c.get('project'), strict=False, pyflags=c.get('pyflags'), hashseed=c.get('hashseed'))[0]
+        c2 = evaluate(prop, comp, [line], have_driver=True, proj=c.get('project'), strict=False, pyflags=c.get('pyflags'), hashseed=c.get('hashseed'), env=c.get('env'))[0]
         r2 = failing(c2)
         if r2 is None:
             return c, r
         c2['hashseed'] = c.get('hashseed')
+        if c.get('env'):
+            c2['env'] = c['env']
         c2['shrunk'] = {'original_input': c['line'], 'rounds': rounds, 'candidates_tried': tried}
         return c2, r2
     except Exception:
@@ -483,6 +504,7 @@ def write_replay(prop, kind, case, rec, broken, seed):
           'project': case.get('project') if case else None,
           **({'interpreter_flags': case['pyflags']} if case and case.get('pyflags') else {}),
           **({'hashseed': case['hashseed']} if case and case.get('hashseed') is not None else {}),
+          **({'environment': case['env']} if case and case.get('env') else {}),
           'input': case['line'] if case else None,
           'expected': (rec or {}).get('expected'), 'observed': (rec or {}).get('observed') or (case['real'] if case else None),
           'model': case.get('model') if case else None, 'what': (rec or {}).get('what'),
@@ -638,7 +660,7 @@ def replay(prop, path):
     lake_build(['driver', 'specdriver'])
     try:
         c = evaluate(prop, rp['component'], [rp['input']], have_driver=True, proj=rp.get('project'), strict=False,
-                     pyflags=rp.get('interpreter_flags'), hashseed=rp.get('hashseed'))[0]
+                     pyflags=rp.get('interpreter_flags'), hashseed=rp.get('hashseed'), env=rp.get('environment'))[0]
     except (RuntimeError, IndexError) as e:
         print('replay could not run: ' + str(e), file=sys.stderr)
         return 2
